@@ -84,5 +84,7 @@ def check_stmts(stmts: list[Statement], errors: list[Error]) -> None:
 
                 errors.append(ErrorInfo.from_node(assignment, msg))
 
+                assignment = None
+
             case _:
                 assignment = None
